@@ -77,6 +77,11 @@ def _run(ctx, prop_mod, replay):
             stats = prop_mod.run(ctx)
         except Exception:
             broken.append(("check crashed", traceback.format_exc()))
+    if stats is not None and ctx.impl_crashes and not any(("crash" in str(v.get("why", "")) or "panic" in str(v.get("why", ""))) for v in ctx.violations):
+        for c, r in ctx.impl_crashes[:2]:
+            ctx.violations.append({"name": "crash-" + core.vhash(c), "property": prop_id, "kind": "failing-input",
+                                   "why": "the implementation %s on this case: %s" % ("died" if r[0] == "crash" else "panicked", str(r[1:])[:300]),
+                                   "case": core.to_jsonable(c), "class": "implementation-crash"})
     # 2b. thorough tier: independent re-check of the compiled proofs, kernel-side evaluation of a sample
     extra = {}
     if ctx.tier == "thorough" and not broken:
